@@ -239,3 +239,108 @@ mut("C14", "independent_flag_without_hash", "make_event_independent sets the fla
             .make_event_independent::<E>();
 """, ""))
 MUTANTS = M
+
+# ------------------------------------------------------------------ C18
+M = MUTANTS
+mut("C18", "reintroduce_d6_no_dedup_in_scene", "scene export no longer skips components already exported", ["C18.R1/scene::replicate_into"],
+    ("src/scene.rs", """                if exported_ids.contains(&component.id) {
+                    continue;
+                }
+""", ""))
+mut("C18", "no_dedup_in_new_archetype", "server archetype cache takes the shared component from both rules", ["new_archetype"],
+    ("src/server/server_world.rs", """                if replicated_archetype
+                    .components
+                    .iter()
+                    .any(|(existing, _)| existing.id == component.id)
+                {
+                    continue;
+                }
+""", ""))
+mut("C18", "no_dedup_in_removal_buffer", "removal buffer records the shared component once per rule", ["RemovalBuffer::update"],
+    ("src/server/removal_buffer.rs", """                if removed_ids.iter().all(|&(id, _)| id != component.id)
+                    && removed_components.contains(&component.id)""", """                if removed_components.contains(&component.id)"""))
+mut("C18", "dedup_against_wrong_collection", "scene export checks a collection it never fills", ["C18.R1/scene::replicate_into"],
+    ("src/scene.rs", "                exported_ids.push(component.id);\n", "                let _ = &mut exported_ids;\n"))
+mut("C18", "entities_without_components_lost", "entries are only created when a component is exported", ["entry-per-entity"],
+    ("src/scene.rs", """        for entity in archetype.entities() {
+            entities.entry(entity.id()).or_default();
+        }
+""", ""),
+    ("src/scene.rs", """                    let components = entities
+                        .get_mut(&entity.id())
+                        .expect("all entities should be populated ahead of time");
+""", """                    let components = entities.entry(entity.id()).or_default();
+"""))
+mut("C18", "existing_scene_entities_duplicated", "existing scene entities are kept and replicated ones appended", ["existing-entities-taken-over"],
+    ("src/scene.rs", """    let mut entities: EntityHashMap<_> = scene
+        .entities
+        .drain(..)
+        .map(|dyn_entity| (dyn_entity.entity, dyn_entity.components))
+        .collect();
+""", """    let mut entities: EntityHashMap<Vec<Box<dyn PartialReflect>>> = Default::default();
+"""))
+mut("C18", "marker_exported", "the Replicated marker is pushed for every entity", ["push-inside-rule-loop"],
+    ("src/scene.rs", """        for entity in archetype.entities() {
+            entities.entry(entity.id()).or_default();
+        }
+""", """        for entity in archetype.entities() {
+            entities.entry(entity.id()).or_default().push(Box::new(Replicated).into_partial_reflect());
+        }
+"""))
+mut("C18", "component_of_first_entity", "every entity gets the value of the archetype's first entity", ["reflect-of-archetype-entity", "push-into-own-entity"],
+    ("src/scene.rs", ".reflect(world.entity(entity.id()))", ".reflect(world.entity(archetype.entities()[0].id()))"))
+
+# ------------------------------------------------------------------ C17
+LC = "bevy_replicon_example_backend/src/link_conditioner.rs"
+TCP = "bevy_replicon_example_backend/src/tcp.rs"
+mut("C17", "reintroduce_d7_no_tiebreak", "cmp ignores the sequence number again", ["cmp-reads-sequence-field"],
+    (LC, """        other
+            .timestamp
+            .cmp(&self.timestamp)
+            .then_with(|| other.sequence.cmp(&self.sequence))
+""", "        other.timestamp.cmp(&self.timestamp)\n"))
+mut("C17", "sequence_never_incremented", "the counter is stored but never advanced", ["cmp-reads-sequence-field"],
+    (LC, "        self.next_sequence += 1;\n", ""))
+mut("C17", "tiebreak_not_reversed", "sequence compared in natural order in a max-heap (newest first)", ["cmp-reversed@sequence"],
+    (LC, ".then_with(|| other.sequence.cmp(&self.sequence))", ".then_with(|| self.sequence.cmp(&other.sequence))"))
+mut("C17", "timestamp_not_reversed", "timestamps compared in natural order", ["cmp-reversed@timestamp"],
+    (LC, """        other
+            .timestamp
+            .cmp(&self.timestamp)""", """        self
+            .timestamp
+            .cmp(&other.timestamp)"""))
+mut("C17", "length_big_endian_writer", "writer switches to big endian", ["length-width-and-endianness"],
+    (TCP, "let message_size = &message_size.to_le_bytes();", "let message_size = &message_size.to_be_bytes();"))
+mut("C17", "reader_swaps_length_bytes", "reader assembles the length from bytes 2,1", ["length-follows-channel"],
+    (TCP, "u16::from_le_bytes([header[1], header[2]])", "u16::from_le_bytes([header[2], header[1]])"))
+mut("C17", "writer_length_before_channel", "writer emits length before channel", ["writer/field-order"],
+    (TCP, """        IoSlice::new(channel_id),
+        IoSlice::new(message_size),""", """        IoSlice::new(message_size),
+        IoSlice::new(channel_id),"""))
+mut("C17", "reader_skips_two_bytes", "reader strips only two header bytes from the payload", ["skips-exactly-the-header"],
+    (TCP, "message.advance(header.len());", "message.advance(header.len() - 1);"))
+mut("C17", "reader_parses_partial_header", "reader proceeds with two peeked bytes", ["waits-for-full-header"],
+    (TCP, """        1..3 => return Err(io::ErrorKind::WouldBlock.into()), // Wait for full header.
+        3.. => (),""", """        1..2 => return Err(io::ErrorKind::WouldBlock.into()), // Wait for full header.
+        2.. => (),"""))
+mut("C17", "client_swaps_channel_and_drops", "client hands every popped message to channel 0", ["handoff-gets-popped-channel-and-payload"],
+    ("bevy_replicon_example_backend/src/client.rs", "        replicon_client.insert_received(channel_id, message);", "        let _ = channel_id;\n        replicon_client.insert_received(0u8, message);"))
+mut("C17", "server_pops_once_per_frame", "server hands over at most one message per client and frame", ["pop-until-empty"],
+    ("bevy_replicon_example_backend/src/server.rs", "        while let Some((channel_id, message)) = connection.conditioner.pop(now) {", "        if let Some((channel_id, message)) = connection.conditioner.pop(now) {"))
+mut("C17", "insert_twice", "every read message is inserted twice into the conditioner", ["one-insert-per-read", "single-push"],
+    (LC, """        self.heap.push(TimedMessage {
+            timestamp,
+            sequence: self.next_sequence,
+            channel_id,
+            message,
+        });
+""", """        self.heap.push(TimedMessage {
+            timestamp,
+            sequence: self.next_sequence,
+            channel_id,
+            message: message.clone(),
+        });
+        if channel_id == 200 {
+            self.heap.push(TimedMessage { timestamp, sequence: self.next_sequence, channel_id, message });
+        }
+"""))
